@@ -13,7 +13,7 @@ CONSTANTS MaxFields, DoExport
 VARIABLES c
 
 PlainIds == <<"f_name", "f_count", "f_flag", "f_tags", "f_items", "f_env", "f_extra", "f_anyv", "f_sub", "f_psub", "f_subs", "f_hid", "f_ratio">>
-InlineIds == {"none", "i_map", "i_str"}
+InlineIds == {"none", "i_map", "i_str", "i_str2"}
 \* all keys, in the fixed order documents list them
 KeyOrder == <<"name", "label", "title", "count", "n", "flag", "tags", "labels", "items", "env", "extra", "anyv", "av", "sub", "psub", "ps", "subs",
               "hidden", "ratio", "u1", "", "p", "q">>
@@ -40,7 +40,7 @@ States(k) == {Absent} \cup Vals(k) \cup (IF NullOK(k) THEN {Null} ELSE {})
 FieldsOf(ids, inl) == [i \in 1..Len(ids) |-> FieldPool[ids[i]]] \o (IF inl = "none" THEN <<>> ELSE <<FieldPool[inl]>>)
 KeysOf(desc, inl) ==
     UNION {{desc[i].key} \cup {desc[i].aliases[j] : j \in 1..Len(desc[i].aliases)} : i \in {x \in 1..Len(desc) : desc[x].role # "inline"}}
-    \cup {"u1", ""} \cup (IF inl = "i_str" THEN {"p", "q"} ELSE {})
+    \cup {"u1", ""} \cup (IF inl = "i_str" THEN {"p", "q"} ELSE {}) \cup (IF inl = "i_str2" THEN {"name", "n"} ELSE {})
 RECURSIVE DocsOver(_, _)
 DocsOver(K, i) ==
     IF i > Len(KeyOrder) THEN {<<>>}
@@ -55,6 +55,7 @@ Pre(desc) == [t |-> "m", kv |-> [i \in 1..Len(desc) |->
                 <<desc[i].name,
                   CASE desc[i].type = "string" -> Str("PRE") [] desc[i].type = "int" -> Num("-7") [] desc[i].type = "float" -> Num("-7.5")
                     [] desc[i].type = "bool" -> Bool(TRUE)
+                    [] desc[i].type = "struct:inl2" -> [t |-> "m", kv |-> << <<"IName", Str("PRE")>>, <<"ICount", Num("-7")>>, <<"IRest", Null>> >>]
                     [] desc[i].type \in {"struct:sub", "struct:inl"} ->
                          [t |-> "m", kv |-> [j \in 1..Len(StructOf(desc[i].type)) |->
                              <<StructOf(desc[i].type)[j].name, IF StructOf(desc[i].type)[j].type = "string" THEN Str("PRE") ELSE Num("-7")>>]]
